@@ -419,6 +419,25 @@ func (c *compiler) freeTemporaries(scp *scope, force bool) {
 	}
 }
 
+// reports wether arg is a plain local variable (no global, no reference) of the calling function
+// and the called function takes no references, so that the callee cannot reach the variable
+func (c *compiler) isUnaliasedLocal(arg ast.Expression, callee *ast.FuncDecl) bool {
+	ident, ok := arg.(*ast.Ident)
+	if !ok {
+		return false
+	}
+	decl, ok := ident.Declaration.(*ast.VarDecl)
+	if !ok || decl.IsGlobal || c.scp.lookupVar(decl).isRef {
+		return false
+	}
+	for _, param := range callee.Parameters {
+		if param.Type.IsReference {
+			return false
+		}
+	}
+	return true
+}
+
 // helper to exit a scope
 // frees all local variables
 // returns the enclosing scope
@@ -2067,12 +2086,17 @@ func (c *compiler) VisitFuncCall(e *ast.FuncCall) ast.VisitResult {
 		} else {
 			eval, valTyp, isTemp := c.evaluate(e.Args[param.Name.Literal]) // compile each argument for the function
 			if valTyp.IsPrimitive() ||
-				(!ast.IsExternFunc(fun.funcDecl) && c.optimizationLevel >= 2 && meta.IsConst[param.Name.Literal]) {
+				(!ast.IsExternFunc(fun.funcDecl) && c.optimizationLevel >= 2 && meta.IsConst[param.Name.Literal] &&
+					(isTemp || c.isUnaliasedLocal(e.Args[param.Name.Literal], fun.funcDecl))) {
+				// a constant parameter is only passed without a copy if nothing the callee does can change the argument
 				val = eval
 			} else { // function parameters need to be copied by the caller
 				dest := c.NewAlloca(valTyp.IrType())
 				c.claimOrCopy(dest, eval, valTyp, isTemp)
 				val = dest // do not add it to the temporaries, as the callee will free it
+				if !ast.IsExternFunc(fun.funcDecl) && c.optimizationLevel >= 2 && meta.IsConst[param.Name.Literal] {
+					c.scp.addTemporary(dest, valTyp) // but a constant parameter is not freed by the callee
+				}
 			}
 		}
 
